@@ -5,7 +5,7 @@
     its stripes); globally the trace annotated with linearization points.
     The invariant ties the snapshots to the shared state, so "no other thread's step changes what I hold the
     lock for" is part of what [Conc.reach_inv] establishes. *)
-From Coq Require Import ZArith List Bool Lia PeanoNat.
+From Coq Require Import ZArith List Bool Lia PeanoNat String.
 From LV Require Import Base.Conc Base.Events Base.Lin Spec.Specs Proofs.LinProofs
      Model.StripingPolicy Model.StripedConc Proofs.StripedConcSpec Proofs.StripedConcAbs.
 Import ListNotations.
@@ -364,6 +364,459 @@ Section Striping.
       + cbn [a_view seta]. apply st_setv; auto. cbn. now rewrite R1.
       + cbn [buckets set_buckets]. eapply absrel_ext; [|exact R3].
         intros x. split; [intros []|]. intros (t0 & H). rewrite Hkeep, Hnp in H. destruct H.
+  Qed.
+
+
+  (** *** the resizer: a thread holding every cell excludes everybody else *)
+  Lemma all_excl g a tr t : Inv g a tr -> (forall j, j < nl -> holds (lk a t) j) ->
+    forall t0, t0 <> t -> (forall i, ~ holds (lk a t0) i) /\ pend_of (lk a t0) = [].
+  Proof.
+    intros Hi Hall t0 Hn. assert (K : forall i, ~ holds (lk a t0) i).
+    { intros i H. apply Hn. eapply (i_excl Hi); [exact H|]. apply Hall. eapply holds_lt; eauto. }
+    split; auto. destruct (lk a t0) eqn:E; cbn; auto. exfalso. apply (K 0). cbn. exact Hnl.
+  Qed.
+
+  (** the view of [t] changes but it keeps the same cells *)
+  Lemma holds_setv_iff a t v' : (forall j, holds (v_lk v') j <-> holds (lk a t) j) ->
+    forall t0 j, holds (lk (setv a t v') t0) j <-> holds (lk a t0) j.
+  Proof. intros H t0 j. destruct (Nat.eq_dec t0 t) as [->|Hn]; [now rewrite lk_setv_same|now rewrite lk_setv_other]. Qed.
+
+  (** generic step of a thread that holds every cell: it may replace mask, table and its pending list as long
+      as the table stays well formed and the abstract set is preserved *)
+  Lemma Inv_resizer_step g g' a tr t v' e :
+    Inv g a tr -> (forall j, holds (lk a t) j <-> j < nl) -> (forall j, holds (v_lk v') j <-> j < nl) ->
+    neutral_ev e ->
+    (forall i, spins g' i = spins g i) ->
+    v_op v' = v_op (a_view a t) ->
+    v_mask v' = mask g' -> (forall b, v_reg v' b = get_b (buckets g') b) ->
+    table_ok hm (mask g') (buckets g') -> (exists e, 0 < e /\ S (mask g') = nl * e) ->
+    (forall s, absrel s (buckets g) (fun x => In x (pend_of (lk a t))) -> absrel s (buckets g') (fun x => In x (pend_of (v_lk v')))) ->
+    Inv g' (setv a t v') (tr ++ Conc.tag t [e]).
+  Proof.
+    intros Hi Hall Hall' He Hs Hop Hm Hr Htab Hdiv Habs. pose proof Hi as [I1 I2 I3 I4 I5 I6 I7 I8].
+    assert (Hex := all_excl g a tr t Hi (fun j H => proj2 (Hall j) H)).
+    assert (Hsame : forall t0 j, holds (lk (setv a t v') t0) j <-> holds (lk a t0) j).
+    { apply holds_setv_iff. intros j. rewrite Hall, Hall'. tauto. }
+    constructor.
+    - intros i Hl. rewrite Hs, (I1 i Hl). split; intros (t0 & H); exists t0; now apply Hsame.
+    - intros t1 t2 i H1 H2. apply Hsame in H1, H2. eapply I2; eauto.
+    - intros i t0. rewrite Hsame, tholder_snoc, hstep_neutral by exact He. apply I3.
+    - intros t0 i H. destruct (Nat.eq_dec t0 t) as [->|Hne].
+      + now rewrite setv_same.
+      + apply Hsame in H. exfalso. eapply (proj1 (Hex t0 Hne)); eauto.
+    - intros t0 b H. destruct (Nat.eq_dec t0 t) as [->|Hne].
+      + now rewrite setv_same.
+      + apply Hsame in H. exfalso. eapply (proj1 (Hex t0 Hne)); eauto.
+    - exact Htab.
+    - exact Hdiv.
+    - destruct I8 as (s & st & H1 & H2 & H3 & H4). exists s, st. rewrite hist_neutral by exact He.
+      split; [exact H1|]. split; [exact H2|]. split.
+      + intros t0. rewrite H3. destruct (Nat.eq_dec t0 t) as [->|Hn]; [now rewrite setv_same|now rewrite setv_other].
+      + eapply absrel_ext; [|apply Habs; eapply absrel_ext; [|exact H4]].
+        * intros x. split.
+          -- intros H. exists t. now rewrite lk_setv_same.
+          -- intros (t0 & H). destruct (Nat.eq_dec t0 t) as [->|Hne]; [now rewrite lk_setv_same in H|].
+             rewrite lk_setv_other in H by exact Hne. rewrite (proj2 (Hex t0 Hne)) in H. destruct H.
+        * intros x. split.
+          -- intros (t0 & H). destruct (Nat.eq_dec t0 t) as [->|Hne]; [exact H|].
+             rewrite (proj2 (Hex t0 Hne)) in H. destruct H.
+          -- intros H. eauto.
+  Qed.
+
+
+  (** *** client events: invocation, response, marker *)
+  Lemma Inv_cli g a tr t v' name args atr' :
+    Inv g a tr -> v_lk v' = lk a t -> v_mask v' = v_mask (a_view a t) -> (forall b, v_reg v' b = v_reg (a_view a t) b) ->
+    (forall s st, lp_run lp_init (a_atr a) = Some (s, st) -> (forall t0, st t0 = v_op (a_view a t0)) ->
+        erase (a_atr a) = hist_of tr ->
+        lp_run lp_init atr' = Some (s, Lin.upd st t (v_op v')) /\ erase atr' = hist_of (tr ++ Conc.tag t [EvCli name args])) ->
+    Inv g (seta (setv a t v') atr') (tr ++ Conc.tag t [EvCli name args]).
+  Proof.
+    intros Hi Hlk Hm Hr Hatr. pose proof Hi as [I1 I2 I3 I4 I5 I6 I7 I8].
+    assert (Hkeep : forall t0, lk (seta (setv a t v') atr') t0 = lk a t0).
+    { intros t0. change (lk (setv a t v') t0 = lk a t0). now apply lk_setv_keep. }
+    constructor.
+    - intros i Hl. setoid_rewrite Hkeep. apply I1; auto.
+    - intros t1 t2 i. rewrite !Hkeep. apply I2.
+    - intros i t0. rewrite Hkeep, tholder_snoc. cbn [hstep]. apply I3.
+    - intros t0 i. rewrite Hkeep. intros H. cbn [a_view seta].
+      destruct (Nat.eq_dec t0 t) as [->|Hn]; [rewrite setv_same, Hm; eauto|rewrite setv_other by exact Hn; eauto].
+    - intros t0 b. rewrite Hkeep. intros H. cbn [a_view seta].
+      destruct (Nat.eq_dec t0 t) as [->|Hn]; [rewrite setv_same, Hr; eauto|rewrite setv_other by exact Hn; eauto].
+    - exact I6.
+    - exact I7.
+    - destruct I8 as (s & st & H1 & H2 & H3 & H4). destruct (Hatr s st H1 H3 H2) as (K1 & K2).
+      exists s, (Lin.upd st t (v_op v')). cbn [a_atr seta a_view].
+      split; [exact K1|]. split; [exact K2|]. split.
+      + apply st_setv; auto.
+      + eapply absrel_ext; [|exact H4]. intros x. split; intros (t0 & H); exists t0; [rewrite Hkeep|rewrite <- Hkeep]; exact H.
+  Qed.
+
+  Lemma z2n_zl (l : list nat) : map z2n (zl l) = l.
+  Proof. unfold zl. rewrite map_map. rewrite <- (map_id l) at 2. apply map_ext. intros x. apply Nat2Z.id. Qed.
+
+  Lemma hist_inv tr t c k x y o : iop_of c k t y = Some o ->
+    hist_of (tr ++ Conc.tag t [EvCli "inv" (zl [c; k; x; y])]) = hist_of tr ++ [@HInv ISet t o].
+  Proof.
+    intros H. rewrite hist_of_app. f_equal. cbn. unfold z2n. rewrite !Nat2Z.id, H. reflexivity.
+  Qed.
+
+  Lemma hist_ret tr t c r1 r2 :
+    hist_of (tr ++ Conc.tag t [EvCli "ret" (zl [c; r1; r2])]) = hist_of tr ++ [@HRes ISet t (res_of c r1 r2)].
+  Proof. rewrite hist_of_app. f_equal. cbn. unfold z2n. now rewrite !Nat2Z.id. Qed.
+
+  Lemma hist_oof tr t : hist_of (tr ++ Conc.tag t [EvCli "outoffuel" []]) = hist_of tr.
+  Proof. rewrite hist_of_app. cbn. now rewrite app_nil_r. Qed.
+
+  Lemma Inv_inv g a tr t c k x y o :
+    Inv g a tr -> v_op (a_view a t) = Lin.Idle -> iop_of c k t y = Some o ->
+    let v := a_view a t in
+    Inv g (seta (setv a t (mkTV (Pending (o : Op ISet)) (v_lk v) (v_mask v) (v_reg v))) (a_atr a ++ [AInv t (o : Op ISet)]))
+        (tr ++ Conc.tag t [EvCli "inv" (zl [c; k; x; y])]).
+  Proof.
+    intros Hi Hop Ho v. apply Inv_cli; auto.
+    intros s st H1 H3 H2. split.
+    - eapply lp_ext; [exact H1|]. cbn [lp_step]. rewrite H3, Hop. reflexivity.
+    - rewrite erase_app, H2, (hist_inv tr t c k x y o Ho). reflexivity.
+  Qed.
+
+  Lemma Inv_ret g a tr t c r1 r2 o :
+    Inv g a tr -> v_op (a_view a t) = Linearized (o : Op ISet) (res_of c r1 r2 : Res ISet) ->
+    let v := a_view a t in
+    Inv g (seta (setv a t (mkTV Lin.Idle (v_lk v) (v_mask v) (v_reg v))) (a_atr a ++ [ARes t (res_of c r1 r2 : Res ISet)]))
+        (tr ++ Conc.tag t [EvCli "ret" (zl [c; r1; r2])]).
+  Proof.
+    intros Hi Hop v. apply Inv_cli; auto.
+    intros s st H1 H3 H2. split.
+    - eapply lp_ext; [exact H1|]. cbn [lp_step]. rewrite H3, Hop.
+      assert (E : res_eqb ISet (res_of c r1 r2) (res_of c r1 r2) = true) by (apply res_eqb_spec; reflexivity).
+      rewrite E. reflexivity.
+    - rewrite erase_app, H2, hist_ret. reflexivity.
+  Qed.
+
+  Lemma Inv_oof g a tr t : Inv g a tr -> Inv g a (tr ++ Conc.tag t [EvCli "outoffuel" []]).
+  Proof.
+    intros Hi. pose proof Hi as [I1 I2 I3 I4 I5 I6 I7 I8]. constructor; auto.
+    - intros i t0. rewrite tholder_snoc. cbn [hstep]. apply I3.
+    - destruct I8 as (s & st & H1 & H2 & H3 & H4). exists s, st. rewrite hist_oof. auto.
+  Qed.
+
+
+  (** ** program specifications ([Conc.safe]) *)
+  Definition optQ {A} (P : A -> tview -> Prop) : option A -> tview -> Prop :=
+    fun r v => match r with Some x => P x v | None => True end.
+
+  Lemma safe_bindo {A B} t (p : prog (option A)) (q : A -> prog (option B)) (Q : B -> tview -> Prop) l :
+    safe t p l (optQ (fun x l' => safe t (q x) l' (optQ Q))) -> safe t (bindo p q) l (optQ Q).
+  Proof.
+    intros H. unfold bindo. apply Conc.safe_bind. eapply Conc.safe_weaken; [|exact H].
+    intros [x|] l' Hx; cbn in *; auto.
+  Qed.
+
+  Lemma safe_thenu {B} t (p : prog unit) (q : prog B) (Q : B -> tview -> Prop) l :
+    safe t p l (fun _ l' => safe t q l' Q) -> safe t (thenu p q) l Q.
+  Proof. intros H. unfold thenu. apply Conc.safe_bind. exact H. Qed.
+
+  Lemma safe_ret {R} t (r : R) (Q : R -> tview -> Prop) l : Q r l -> safe t (Ret r) l Q.
+  Proof. intros H. exact H. Qed.
+  Lemma safe_oret {R} t (r : R) (Q : R -> tview -> Prop) l : Q r l -> safe t (oret r) l (optQ Q).
+  Proof. intros H. exact H. Qed.
+
+  Definition nolock (l : lstate) : Prop := (forall j, ~ holds l j) /\ pend_of l = [].
+
+  (** *** spin lock of a cell *)
+  Lemma safe_sl_lock t i l' (Q : tview -> Prop) : i < nl -> forall fuel v,
+    pend_of (v_lk v) = [] -> pend_of l' = [] ->
+    (forall j, holds l' j <-> holds (v_lk v) j \/ j = i) ->
+    (forall m reg, Q (mkTV (v_op v) l' m reg)) ->
+    safe t (sl_lock_outer fuel (SCell i) None) v (optQ (fun _ => Q)) /\
+    safe t (sl_lock_inner fuel (SCell i) None) v (optQ (fun _ => Q)).
+  Proof.
+    intros Hl fuel v Hp Hp' Hh HQ. induction fuel as [|f IH]; split; cbn [sl_lock_outer sl_lock_inner Conc.safe optQ]; auto.
+    - intros g a tr Hi Hv. unfold view in Hv. cbn [a_sl_xchg sl_get fst snd]. destruct (spins g i) eqn:Hs.
+      + exists a. split; [apply Inv_xchg_fail; auto|]. split; [apply frame_refl|].
+        cbn [b2n vn Nat.eqb]. unfold view. rewrite Hv. apply IH.
+      + set (v' := mkTV (v_op v) l' (mask g) (fun b => if Nat.eqb (b mod nl) i then get_b (buckets g) b else v_reg v b)).
+        exists (setv a t v'). split; [|split; [apply frame_setv|]].
+        * apply Inv_acquire; auto; unfold lk; rewrite Hv; auto.
+        * cbn [b2n vn Nat.eqb Conc.safe optQ]. unfold view. rewrite setv_same. apply HQ.
+    - intros g a tr Hi Hv. unfold view in Hv. cbn [a_sl_ld fst snd]. exists a.
+      split; [eapply Inv_silent; [exact Hi|apply same_core_refl|exact I]|]. split; [apply frame_refl|].
+      unfold view. rewrite Hv. cbn [vn vnat]. destruct (Nat.eqb (b2n (sl_get g (SCell i))) 0); apply IH.
+  Qed.
+
+  Lemma safe_sl_unlock t i l' (Q : tview -> Prop) v :
+    holds (v_lk v) i -> pend_of (v_lk v) = [] -> pend_of l' = [] ->
+    (forall j, holds l' j <-> holds (v_lk v) j /\ j <> i) ->
+    Q (mkTV (v_op v) l' (v_mask v) (v_reg v)) ->
+    safe t (sl_unlock (SCell i)) v (fun _ => Q).
+  Proof.
+    intros Hme Hp Hp' Hh HQ. unfold sl_unlock. cbn [Conc.safe].
+    intros g a tr Hi Hv. unfold view in Hv. cbn [a_sl_st fst snd].
+    exists (setv a t (mkTV (v_op v) l' (v_mask v) (v_reg v))). split; [|split; [apply frame_setv|]].
+    - apply Inv_release; auto; unfold lk; rewrite Hv; auto.
+    - unfold view. rewrite setv_same. exact HQ.
+  Qed.
+
+  (** a step that leaves the core of the state and the view alone (loads, the item counter) *)
+  Lemma safe_silent {R} t (f : action) (k : V -> prog R) (Q : R -> tview -> Prop) v :
+    (forall g, same_core g (fst (fst (f g))) /\ exists e, snd (f g) = [e] /\ neutral_ev e) ->
+    (forall g a tr, Inv g a tr -> a_view a t = v -> safe t (k (snd (fst (f g)))) v Q) ->
+    safe t (Act f k) v Q.
+  Proof.
+    intros Hf Hk. cbn [Conc.safe]. intros g a tr Hi Hv. unfold view in Hv.
+    destruct (Hf g) as (Hc & e & He & Hn). exists a. rewrite He.
+    split; [eapply Inv_silent; eauto|]. split; [apply frame_refl|]. unfold view. rewrite Hv. eapply Hk; eauto.
+  Qed.
+
+
+  (** *** lock_all / unlock_all *)
+  Lemma safe_lock_all t fuel (Q : tview -> Prop) : forall n i v, i + n = nl ->
+    (forall j, holds (v_lk v) j <-> j < i) -> pend_of (v_lk v) = [] ->
+    (forall v', v_op v' = v_op v -> (forall j, holds (v_lk v') j <-> j < nl) -> pend_of (v_lk v') = [] -> Q v') ->
+    safe t (lock_all fuel n i) v (optQ (fun _ => Q)).
+  Proof.
+    induction n as [|n IH]; intros i v Hn Hh Hp HQ; cbn [lock_all].
+    - cbn. apply HQ; auto. intros j. rewrite Hh. lia.
+    - apply safe_bindo. unfold sl_lock.
+      assert (Hi : i < nl) by lia.
+      refine (proj1 (safe_sl_lock t i (LLocking (S i)) (fun v' => safe t (lock_all fuel n (S i)) v' (optQ (fun _ => Q))) Hi fuel v Hp eq_refl _ _)).
+      + intros j. cbn. rewrite Hh. lia.
+      + intros m reg. apply IH; [lia|intros j; cbn; lia|reflexivity|]. intros v' H1 H2 H3. apply HQ; auto.
+  Qed.
+
+  Lemma safe_unlock_all t (Q : tview -> Prop) : forall n i v, i + n = nl ->
+    (forall j, holds (v_lk v) j <-> i <= j < nl) -> pend_of (v_lk v) = [] ->
+    (forall v', v_op v' = v_op v -> nolock (v_lk v') -> Q v') ->
+    safe t (unlock_all n i) v (fun _ => Q).
+  Proof.
+    induction n as [|n IH]; intros i v Hn Hh Hp HQ; cbn [unlock_all].
+    - cbn. apply HQ; auto. split; auto. intros j. rewrite Hh. lia.
+    - apply safe_thenu.
+      apply (safe_sl_unlock t i (LUnlocking (S i)) (fun v' => safe t (unlock_all n (S i)) v' (fun _ => Q))); auto.
+      + apply Hh. lia.
+      + intros j. cbn. rewrite Hh. lia.
+      + apply IH; [lia|intros j; cbn; lia|reflexivity|]. intros v' H1 H2. apply HQ; auto.
+  Qed.
+
+  (** *** the moves of a resize *)
+  Lemma safe_move_all t (Q : tview -> Prop) : forall xs v, v_lk v = LMove xs ->
+    (forall v', v_op v' = v_op v -> v_lk v' = LMove [] -> Q v') ->
+    safe t (move_all hm xs) v (fun _ => Q).
+  Proof.
+    induction xs as [|x r IH]; intros v Hlk HQ; cbn [move_all].
+    - cbn. apply HQ; auto.
+    - cbn [Conc.safe]. intros g a tr Hi Hv. unfold view in Hv. cbn [a_move fst snd].
+      set (b := hfun hm (key_of x) mod S (mask g)).
+      set (new := if bucket_has (key_of x) (get_b (buckets g) b) then get_b (buckets g) b else x :: get_b (buckets g) b).
+      set (g' := set_buckets g (set_nth_b (buckets g) b new)).
+      set (v' := mkTV (v_op v) (LMove r) (mask g') (fun b0 => get_b (buckets g') b0)).
+      exists (setv a t v'). split; [|split; [apply frame_setv|]].
+      + assert (Hall : forall j, holds (lk a t) j <-> j < nl) by (intros j; unfold lk; rewrite Hv, Hlk; cbn; tauto).
+        apply (Inv_resizer_step g g' a tr t v' (EvAcc KLd o_mask true) Hi Hall).
+        * intros j. cbn. tauto.
+        * exact I.
+        * intros j. reflexivity.
+        * now rewrite Hv.
+        * reflexivity.
+        * intros b0. reflexivity.
+        * apply (move_table_ok hm (mask g) (buckets g) x (i_tab Hi)).
+        * exact (i_div Hi).
+        * intros s Hs. unfold lk in Hs. rewrite Hv, Hlk in Hs. cbn [pend_of] in Hs.
+          apply (proj2 (move_abs hm (mask g) (buckets g) s x r (i_tab Hi) Hs)).
+      + unfold view. rewrite setv_same. apply IH; [reflexivity|]. intros v'' H1 H2. apply HQ; auto.
+  Qed.
+
+
+  (** *** resize *)
+  Lemma neutral_ld_mask : neutral_ev (EvAcc KLd o_mask true).  Proof. exact I. Qed.
+
+  Lemma safe_resize_tail t N (Q : tview -> Prop) v :
+    (forall j, holds (v_lk v) j <-> j < nl) -> pend_of (v_lk v) = [] ->
+    (forall v', v_op v' = v_op v -> nolock (v_lk v') -> Q v') ->
+    safe t (if Nat.eqb (S (v_mask v)) N
+            then bindo (internal_resize Striping (c_fuel cf) hm (2 * N)) (fun _ => thenu (resize_unlock Striping nl) (oret tt))
+            else thenu (resize_unlock Striping nl) (oret tt)) v (optQ (fun _ => Q)).
+  Proof.
+    intros Hall Hp HQ.
+    assert (Hun : forall v1, v_op v1 = v_op v -> (forall j, holds (v_lk v1) j <-> j < nl) -> pend_of (v_lk v1) = [] ->
+                   safe t (thenu (resize_unlock Striping nl) (oret tt)) v1 (optQ (fun _ => Q))).
+    { intros v1 H1 H2 H3. apply safe_thenu. cbn [resize_unlock].
+      apply safe_unlock_all; auto. { intros j. rewrite H2. lia. }
+      intros v' H4 H5. apply safe_oret. apply HQ; auto. congruence. }
+    destruct (Nat.eqb_spec (S (v_mask v)) N) as [<-|_]; [|apply Hun; auto].
+    apply safe_bindo. unfold internal_resize. cbn [policy_resize]. apply safe_bindo. apply safe_oret.
+    apply safe_silent.
+    { intros g. split; [apply same_core_refl|]. exists (EvAcc KLd o_mask true). split; [reflexivity|exact I]. }
+    intros g0 a0 tr0 _ _. cbn [a_mask_ld fst snd]. clear g0 a0 tr0. cbn [Conc.safe].
+    intros g a tr Hi Hv. unfold view in Hv. cbn [a_mask_st_alloc fst snd vl].
+    assert (Hall' : forall j, holds (lk a t) j <-> j < nl) by (intros j; unfold lk; rewrite Hv; apply Hall).
+    assert (Hm : mask g = v_mask v).
+    { rewrite <- Hv. apply (i_mask Hi t 0). apply Hall'. exact Hnl. }
+    set (n := 2 * S (v_mask v)).
+    set (g' := set_buckets (set_mask g (n - 1)) (repeat [] n)).
+    set (v' := mkTV (v_op v) (LMove (List.concat (buckets g))) (n - 1) (fun b => get_b (repeat [] n) b)).
+    exists (setv a t v'). split; [|split; [apply frame_setv|]].
+    - apply (Inv_resizer_step g g' a tr t v' (EvAcc KSt o_mask true) Hi Hall').
+      + intros j. cbn. tauto.
+      + exact I.
+      + intros j. reflexivity.
+      + now rewrite Hv.
+      + reflexivity.
+      + intros b. reflexivity.
+      + cbn [mask buckets g' set_buckets set_mask]. apply alloc_table_ok. unfold n. lia.
+      + cbn [mask g' set_buckets set_mask]. destruct (i_div Hi) as (e & He & Hd). exists (2 * e). split; [lia|].
+        unfold n. rewrite <- Hm. lia.
+      + intros s Hs. cbn [buckets g' set_buckets v_lk v' pend_of]. apply alloc_abs.
+        eapply absrel_ext; [|exact Hs]. intros x. unfold lk. rewrite Hv, Hp. cbn. tauto.
+    - unfold view. rewrite setv_same. apply safe_thenu.
+      apply safe_move_all with (xs := List.concat (buckets g)); [reflexivity|].
+      intros v2 H1 H2. apply safe_oret. apply Hun.
+      + rewrite H1. reflexivity.
+      + intros j. rewrite H2. cbn. tauto.
+      + now rewrite H2.
+  Qed.
+
+  Lemma safe_resize t me (Q : tview -> Prop) v : nolock (v_lk v) ->
+    (forall v', v_op v' = v_op v -> nolock (v_lk v') -> Q v') ->
+    safe t (resize (c_pol cf) (c_fuel cf) nl hm me) v (optQ (fun _ => Q)).
+  Proof.
+    intros [Hno Hp] HQ. rewrite Hpol. unfold resize.
+    apply safe_silent.
+    { intros g. split; [apply same_core_refl|]. exists (EvAcc KLd o_mask true). split; [reflexivity|exact I]. }
+    intros g0 a0 tr0 _ _. cbn [a_mask_ld fst snd vn vnat].
+    generalize (S (mask g0)). intros N. clear g0 a0 tr0.
+    apply safe_bindo. cbn [resize_lock]. apply safe_bindo.
+    apply safe_lock_all; auto.
+    { intros j. split; [intros H; exfalso; eapply Hno; eauto|lia]. }
+    intros v1 H1 H2 H3. apply safe_oret. cbn [Conc.safe].
+    (* the second load: under all the locks the mask is the one of the snapshot *)
+    intros g a tr Hi Hv. unfold view in Hv. cbn [a_mask_ld fst snd].
+    exists a. split; [eapply Inv_silent; [exact Hi|apply same_core_refl|exact I]|]. split; [apply frame_refl|].
+    unfold view. rewrite Hv. cbn [vn vnat].
+    assert (Hm : mask g = v_mask v1).
+    { rewrite <- Hv. apply (i_mask Hi t 0). unfold lk. rewrite Hv. apply H2. exact Hnl. }
+    rewrite Hm. apply safe_resize_tail; auto.
+    intros v' H4 H5. apply HQ; auto. congruence.
+  Qed.
+
+
+  (** *** one client operation *)
+  Definition QIdle : unit -> tview -> Prop := fun _ v => v_op v = Lin.Idle /\ nolock (v_lk v).
+
+  Lemma safe_fin t c k b bo r1 r2 v :
+    op_of_code c b = Some bo ->
+    v_op v = Linearized (iop_of_bop bo k t : Op ISet) (res_of_bop bo r1 r2 : Res ISet) -> nolock (v_lk v) ->
+    safe t (op_finish c k r1 r2) v (optQ QIdle).
+  Proof.
+    intros Hoc Hop Hno. unfold op_finish. cbn [Conc.safe]. intros g a tr Hi Hv. unfold view in Hv.
+    rewrite <- (res_of_code c k b bo r1 r2 Hoc) in Hop.
+    eexists. split; [apply (Inv_ret g a tr t c r1 (r2_of_code c k r1 r2) (iop_of_bop bo k t) Hi); now rewrite Hv|].
+    split.
+    - intros t' Hne. unfold view. cbn [a_view seta]. now apply setv_other.
+    - unfold view. cbn [a_view seta]. rewrite setv_same. apply safe_oret. split; [reflexivity|]. cbn [v_lk]. now rewrite Hv.
+  Qed.
+
+  Lemma safe_unlock_fin t i c k b bo r1 r2 (p : prog (option unit)) v :
+    i < nl -> op_of_code c b = Some bo ->
+    v_op v = Linearized (iop_of_bop bo k t : Op ISet) (res_of_bop bo r1 r2 : Res ISet) -> v_lk v = LCell i ->
+    (forall v', v_op v' = v_op v -> nolock (v_lk v') -> safe t p v' (optQ QIdle)) ->
+    safe t (thenu (cell_unlock (CSpin i)) p) v (optQ QIdle).
+  Proof.
+    intros Hl Hoc Hop Hlk Hp. apply safe_thenu. cbn [cell_unlock].
+    apply (safe_sl_unlock t i LNone); auto.
+    - rewrite Hlk. cbn. auto.
+    - now rewrite Hlk.
+    - intros j. rewrite Hlk. cbn. lia.
+    - apply Hp; [reflexivity|]. split; [intros j H; exact H|reflexivity].
+  Qed.
+
+  Lemma neutral_count k : neutral_ev (EvAcc k o_count true).
+  Proof. destruct k; exact I. Qed.
+
+  Lemma safe_op_tail t i c k b bo r1 r2 bi v :
+    i < nl -> op_of_code c b = Some bo ->
+    v_op v = Linearized (iop_of_bop bo k t : Op ISet) (res_of_bop bo r1 r2 : Res ISet) -> v_lk v = LCell i ->
+    safe t (op_tail cf (S t) bo (CSpin i) c k (mkV r1 r2 bi [])) v (optQ QIdle).
+  Proof.
+    intros Hl Hoc Hop Hlk.
+    assert (Hfin : forall v', v_op v' = v_op v -> nolock (v_lk v') -> safe t (op_finish c k r1 r2) v' (optQ QIdle)).
+    { intros v' H1 H2. eapply safe_fin; eauto. congruence. }
+    assert (Hsimple : safe t (thenu (cell_unlock (CSpin i)) (op_finish c k r1 r2)) v (optQ QIdle)).
+    { eapply safe_unlock_fin; eauto. }
+    assert (Hins : safe t (after_insert cf (S t) (CSpin i) bi (op_finish c k r1 r2)) v (optQ QIdle)).
+    { unfold after_insert. apply safe_silent.
+      { intros g. split; [apply same_core_count|]. eexists. split; [reflexivity|apply neutral_count]. }
+      intros g0 a0 tr0 _ _.
+      assert (Hafter : forall m, safe t (thenu (cell_unlock (CSpin i))
+                 (if resize_wanted cf (S (vn (snd (fst (a_count_faa_b bi g0))))) (vs (snd (fst (a_count_faa_b bi g0)))) m
+                  then bindo (resize (c_pol cf) (c_fuel cf) nl hm (S t)) (fun _ => op_finish c k r1 r2)
+                  else op_finish c k r1 r2)) v (optQ QIdle)).
+      { intros m. eapply safe_unlock_fin; eauto. intros v' H1 H2.
+        destruct (resize_wanted _ _ _ _); [|apply Hfin; auto].
+        apply safe_bindo. apply safe_resize; auto. intros v'' H3 H4. apply Hfin; auto. congruence. }
+      destruct (c_rp cf); [apply Hafter|].
+      apply safe_silent.
+      { intros g. split; [apply same_core_refl|]. eexists. split; [reflexivity|exact I]. }
+      intros g1 a1 tr1 _ _. apply Hafter. }
+    unfold op_tail. cbn [vn vm vs]. destruct bo as [|allow| | |].
+    - destruct (Nat.eqb r1 1); auto.
+    - destruct (Nat.eqb r1 1 && Nat.eqb r2 1); auto.
+    - eapply safe_unlock_fin; eauto. intros v' H1 H2. destruct (Nat.eqb r1 1); [|apply Hfin; auto].
+      apply safe_silent.
+      { intros g. split; [apply same_core_count|]. eexists. split; [reflexivity|apply neutral_count]. }
+      intros g0 a0 tr0 _ _. apply Hfin; auto.
+    - eapply safe_unlock_fin; eauto. intros v' H1 H2. destruct (Nat.eqb r1 1); [|apply Hfin; auto].
+      apply safe_silent.
+      { intros g. split; [apply same_core_count|]. eexists. split; [reflexivity|apply neutral_count]. }
+      intros g0 a0 tr0 _ _. apply Hfin; auto.
+    - exact Hsimple.
+  Qed.
+
+  Lemma safe_run_op t o v : v_op v = Lin.Idle -> nolock (v_lk v) -> safe t (run_op cf t o) v (optQ QIdle).
+  Proof.
+    intros Hop Hno. unfold run_op.
+    set (c := nth 0 o 0). set (k := nth 1 o 0). set (x := nth 2 o 0). set (y := nth 3 o 0).
+    destruct (op_of_code c y) as [bo|] eqn:Hoc; [|apply safe_oret; split; auto].
+    cbn [Conc.safe]. intros g a tr Hi Hv. unfold view in Hv.
+    eexists. split; [apply (Inv_inv g a tr t c k x y (iop_of_bop bo k t) Hi); [now rewrite Hv|now apply iop_of_code]|].
+    split; [intros t' Hne; unfold view; cbn [a_view seta]; now apply setv_other|].
+    unfold view. cbn [a_view seta]. rewrite setv_same, Hv. clear g a tr Hi Hv.
+    set (i := hfun hm k mod nl). assert (Hl : i < nl) by (apply Nat.mod_upper_bound; lia).
+    apply safe_bindo. rewrite Hpol. cbn [cell_lock]. apply safe_bindo. unfold sl_lock.
+    destruct Hno as [Hno Hp].
+    match goal with |- Conc.safe _ _ _ _ ?vv _ => set (v1 := vv) end.
+    refine (proj1 (safe_sl_lock t i (LCell i) _ Hl (c_fuel cf) v1 Hp eq_refl _ _)).
+    { intros j. cbn. split; [intros [-> _]; now right|intros [H| ->]; [exfalso; eapply Hno; eauto|auto]]. }
+    intros m reg. cbv beta. apply safe_oret. cbv beta. cbn [Conc.safe v_op v1].
+    (* the linearization point *)
+    intros g a tr Hi Hv. unfold view in Hv.
+    pose proof (Inv_bucket_op g a tr t bo k Hi) as HI. rewrite Hv in HI. cbn [v_op v_lk v_mask v_reg] in HI.
+    unfold lk in HI. rewrite Hv in HI. cbn [v_lk] in HI.
+    specialize (HI eq_refl ltac:(cbn; fold i; auto) eq_refl).
+    unfold a_bucket_op. cbv zeta in HI.
+    destruct (bucket_apply bo k t (get_b (buckets g) (hfun hm k mod S (mask g)))) as [[nb r1] r2] eqn:E.
+    cbn [fst snd] in *.
+    eexists. split; [exact HI|]. split; [intros t' Hne; unfold view; cbn [a_view seta]; now apply setv_other|].
+    unfold view. cbn [a_view seta]. rewrite setv_same.
+    eapply safe_op_tail; eauto.
+  Qed.
+
+  Lemma safe_run_ops t os : forall v, v_op v = Lin.Idle -> nolock (v_lk v) -> safe t (run_ops cf t os) v (fun _ _ => True).
+  Proof.
+    induction os as [|o r IH]; intros v Hop Hno; cbn [run_ops]; [exact I|].
+    apply Conc.safe_bind. eapply Conc.safe_weaken; [|apply safe_run_op; auto].
+    intros [u|] v' H; cbn in H.
+    - destruct H. apply IH; auto.
+    - cbn [Conc.safe]. intros g a tr Hi Hv. exists a. split; [now apply Inv_oof|]. split; [apply frame_refl|exact I].
+  Qed.
+
+  Lemma safe_thread t os v : v_op v = Lin.Idle -> nolock (v_lk v) ->
+    safe t (thread_prog cf t os) v (@Conc.QTrue tview).
+  Proof.
+    intros Hop Hno. unfold thread_prog. apply safe_silent.
+    { intros g. split; [apply same_core_refl|]. eexists. split; [reflexivity|exact I]. }
+    intros g a tr _ _. eapply Conc.safe_weaken; [|apply safe_run_ops; auto]. intros; exact I.
   Qed.
 
 End Striping.
